@@ -7,6 +7,12 @@
    ACTION ::= (send RID TAG (req #BYTES)) | (send RID TAG (flush OLD)) | (connerr)
             | (fin RID (msg #B)) | (fin RID (emsg #E)) | (fin RID (err #E))
             | (wok) | (wfail) | (cancel) | (nop) | (multi ACTION...)
+            | (bulk N RID0 TAG0 NTAGS)   N filler requests RID0.. on tags TAG0 + (i mod NTAGS), sent in one
+                                          batch to an idle server in AUTO mode, each answered at once by an
+                                          auto-completing handler; the harness checks every filler's dispatch
+                                          and reply itself and reports an empty observation, the model runs
+                                          the seven events of each filler in order (any interleaving of a
+                                          batch on distinct tags ends in the same state)
    OBS    ::= (obs (TAKE...) (DISP...) (RID...) STOPS)
               TAKE = (TAG #BYTES) in write order; DISP = (RID #BYTES) sorted by RID;
               cancelled RIDs sorted; STOPS = number of Stop calls in this step.
@@ -130,10 +136,31 @@ Definition dedup_states (l : list st) : list st :=
 
 Definition EXPLORE_FUEL : nat := 4000.
 
+(* (bulk ...): the events of one filler request, from arrival to its reply on the wire *)
+Definition bulk_events (rid tag : N) : list event :=
+  [ESend rid tag (KReq []); EReaderGet; EArrive; EFinish rid (RMsg []); EComplete rid; ETake; EWriteOk].
+
+Definition run_bulk (v : variant) (s : st) (n rid0 tag0 ntags : N) : option st :=
+  fst (N.iter n (fun acc : option st * N =>
+                   let i := snd acc in
+                   (match fst acc with
+                    | Some s1 => match run v s1 (bulk_events (rid0 + i) (tag0 + i mod ntags)) with
+                                 | Some (s2, _) => Some s2
+                                 | None => None
+                                 end
+                    | None => None
+                    end, i + 1)) (Some s, 0)).
+
 (* one schedule step on the state set *)
 Definition step_set (v : variant) (auto : bool) (states : list st) (act obs : sexp)
   : list st * list sexp * bool :=
   let starts := flat_map (fun s =>
+                  if head_is act "bulk" then
+                    match run_bulk v s (get_N (arg act 0)) (get_N (arg act 1)) (get_N (arg act 2)) (N.max 1 (get_N (arg act 3))) with
+                    | Some s' => [(s', [])]
+                    | None => []
+                    end
+                  else
                   match apply_events v s [] (parse_action act) with
                   | Some n => [n]
                   | None => []
